@@ -176,8 +176,16 @@ class HTTPException(BaseResponse, Exception):
         except KeyError:
             fmt_name, mimetype = 'text', 'text/plain'
         _method = getattr(self, 'to_' + fmt_name)
-        self.data = _method()
+        self.set_data(_method())
         self.headers['Content-Type'] = get_content_type(mimetype, self.charset)
+
+    def set_data(self, value):
+        # error text can carry anything an exception message can,
+        # e.g. lone surrogates from undecodable filenames; that must
+        # not make rendering the error itself fail
+        if isinstance(value, unicode):
+            value = value.encode(self.charset, 'backslashreplace')
+        super(HTTPException, self).set_data(value)
 
     def transcribe(self, request):
         # TODO
